@@ -6,11 +6,83 @@ at the case splits of the model and of the proofs: stack depths at and around ev
 detaching the top / a buried / the bottom / an already detached / a foreign token, one context attached several
 times, tokens detached twice (explicitly and then by their destructor), scopes released in and out of order, keys
 that are prefixes of each other / contain NULs / are empty, batches with duplicate keys, the empty batch (F20, repaired)."""
+import os, stat
+from tools import vlib
 from tools.vlib import hx
 
 ID = "C10"
 LEVEL = "proof"
 DRIVER = {"srcs": ["harness/c10_driver.cc"], "sdk": False}
+
+# Two builds of the same driver.  Everything runs on the ASan/UBSan build - except the cases written with ATP
+# (Attach of a temporary Context, stale-token histories): under ASan freed memory is quarantined, so a freed DataList
+# node is never handed out again and an identity that is only COMPARED (never dereferenced) after its object died can
+# not be observed.  Those cases run on the build WITHOUT sanitizers, where glibc's allocator reuses the address at once.
+# The same histories written with ATT run on the ASan build as well.
+WRAPPER = r"""#!/usr/bin/env python3
+import os, subprocess, sys, tempfile
+SAN, PLAIN = %r, %r
+lines = open(sys.argv[1]).read().split("\n")
+if lines and lines[-1] == "":
+    lines.pop()
+out = [None] * len(lines)
+tails, rcs = [], []
+
+
+def run(exe, idx):
+    if not idx:
+        return
+    fd, path = tempfile.mkstemp(prefix="c10_", suffix=".cases")
+    with os.fdopen(fd, "w") as f:
+        for i in idx:
+            f.write(lines[i] + "\n")
+    r = subprocess.run([exe, path], stdout=subprocess.PIPE, stderr=subprocess.STDOUT, text=True, errors="replace")
+    os.unlink(path)
+    got = r.stdout.split("\n")
+    if got and got[-1] == "":
+        got.pop()
+    if r.returncode == 0 and len(got) == len(idx):
+        for i, g in zip(idx, got):
+            out[i] = g
+        return
+    good = []
+    for g in got:
+        if g.startswith("=====") or "ERROR: " in g or "runtime error" in g or g.startswith("    #"):
+            break
+        good.append(g)
+    good = good[:len(idx)]
+    for i, g in zip(idx, good):
+        out[i] = g
+    tails.append("\n".join(got[len(good):len(good) + 60]))
+    rcs.append(r.returncode or 1)
+
+
+plain = [i for i, l in enumerate(lines) if "ATP " in l]
+pset = set(plain)
+run(SAN, [i for i in range(len(lines)) if i not in pset])
+run(PLAIN, plain)
+for g in out:
+    if g is None:
+        break
+    print(g)
+if rcs:
+    print("\n".join(tails))
+    sys.exit(rcs[0])
+"""
+
+
+def build_driver():
+    san = vlib.build_driver("c10_driver", DRIVER["srcs"], sdk=False)
+    plain = vlib.build_driver("c10_driver_plain", DRIVER["srcs"], sdk=False, variant="plain")
+    w = san + "_dispatch_%s.py" % os.path.basename(plain)[-8:]
+    text = WRAPPER % (san, plain)
+    if not os.path.exists(w) or open(w).read() != text:
+        with open(w, "w") as f:
+            f.write(text)
+        os.chmod(w, os.stat(w).st_mode | stat.S_IXUSR | stat.S_IXGRP | stat.S_IXOTH)
+    return w
+
+
 TRIVIAL_TAGS = {"empty"}
 IMPL_TIMEOUT = 300     # a broken unwinding loop in Detach never terminates: report it instead of waiting half an hour
 ASSUMPTIONS = [
@@ -25,6 +97,7 @@ ASSUMPTIONS = [
     "memory safety of the stack reallocation is evidenced by the ASan/UBSan build, not proved",
 ]
 TRUSTED = ["model coq/C10/Model.v is hand-written; tied by this correspondence run",
+           "the generated dispatch wrapper (ATP cases -> driver built without sanitizers, everything else -> ASan/UBSan build)",
            "the stack contents are revealed through the public interface only (Attach(GetCurrent()); Detach; ~Token)"]
 
 SPAN_KEY = b"active_span"
@@ -398,6 +471,69 @@ def prog_threads(rng, keys, nthreads, n_ops):
     return " | ".join(segs)
 
 
+def prog_stale_token(rng, op):
+    """a token that outlives its frame, whose Context nobody else holds (a temporary handed straight to Attach), then k
+    fresh temporaries of the same shape (one of them is allocated where the dead one was), then the stale token is
+    detached again and/or destroyed: it is foreign - false, nothing changes.  [op] = ATT (ASan build) / ATP (plain build)."""
+    key = rng.choice([b"request", b"r", b"active_span", b"k" * 24])
+    ops, pool, toks = [], 1, 0
+    live = []                 # tokens of frames on the stack (oldest first)
+
+    def att():
+        nonlocal pool, toks
+        ops.append("%s %d %s" % (op, pool, hx(key)))
+        pool += 1
+        toks += 1
+        live.append(toks - 1)
+        return toks - 1
+
+    def look():
+        ops.append("CUR"); ops.append("RGV " + hx(key))
+        if rng.chance(1, 3):
+            ops.append("CSP")
+
+    base = rng.below(3)
+    for _ in range(base):
+        if rng.chance(1, 2):
+            att()
+        else:           # a held context as base
+            ops.append("SV 0 %s i %d" % (hx(key), 1000 + pool)); pool += 1
+            ops.append("AT %d" % (pool - 1)); toks += 1; live.append(toks - 1)
+    shape = rng.below(3)
+    stale = []
+    if shape == 0:        # explicit Detach, token kept
+        t = att(); look()
+        ops.append("DT %d" % t); live.remove(t); stale.append(t)
+    elif shape == 1:      # out of order: the outer token unwinds the inner frames, whose tokens are kept
+        outer = att()
+        inner = [att() for _ in range(1 + rng.below(3))]
+        look()
+        ops.append("DT %d" % outer)
+        for t in [outer] + inner:
+            live.remove(t)
+        stale += inner + [outer]
+    else:                 # two explicit detaches in order, both kept
+        a, b = att(), att(); look()
+        ops.append("DT %d" % b); ops.append("DT %d" % a); live.remove(a); live.remove(b); stale += [a, b]
+    look()
+    for _ in range(rng.choice([1, 1, 2, 3, 4, 6, 8, 12])):
+        att()
+        if rng.chance(1, 4):
+            look()
+    look()
+    rng.shuffle(stale)
+    for t in stale:
+        how = rng.below(3)
+        if how != 1:
+            ops.append("DT %d" % t); look()
+        if how != 0:
+            ops.append("KT %d" % t); look()
+    # the live frames are still detachable in order
+    for t in reversed(live[-2:]):
+        ops.append("DT %d" % t); ops.append("CUR")
+    return " ; ".join(ops)
+
+
 def f20_cases(rng):
     """regression for F20 (fixed in /repo 4bc3189): an empty batch must not shadow the empty key; under the UBSan build
     the unrepaired GetValue also stops on memcmp(key, nullptr, 0)"""
@@ -418,6 +554,11 @@ def gen(rng, tier):
     cases = []
     cases.append("")
     cases += f20_cases(rng)
+    # stale tokens over temporaries: the same history once on the ASan build (ATT) and once on the plain build (ATP)
+    for _ in range(40 * n):
+        c = prog_stale_token(rng, "ATT")
+        cases.append(c)
+        cases.append(c.replace("ATT ", "ATP "))
     # fixed small programs aimed at each detach kind
     for _ in range(8 * n):
         cases.append(prog_double_detach(rng, rng.choice(KEY_FAMILIES)))
@@ -446,7 +587,7 @@ def gen(rng, tier):
     return cases
 
 
-CREATING = ("SV", "RSV", "RSVC", "NEW1", "SSP", "SVS", "NEW", "AT", "ATC", "SC", "WAS")
+CREATING = ("SV", "RSV", "RSVC", "NEW1", "SSP", "SVS", "NEW", "AT", "ATC", "SC", "WAS", "ATT", "ATP")
 
 
 def shrink(case):
